@@ -283,6 +283,7 @@ fn scenario_restart(rng: &mut Rng, id: String, rep: &mut Report, props: &[&str])
     w.push_via(k, n_old, true);
     let variant = rng.below(5);
     let clear = rng.coin();
+    let mut gap_behind = 0usize;
     // old injectors keep pushing from two threads across all of it
     let stop = Arc::new(AtomicBool::new(false));
     let mut pushers = Vec::new();
@@ -343,6 +344,14 @@ fn scenario_restart(rng: &mut Rng, id: String, rep: &mut Report, props: &[&str])
             while w.tick(20).running {}
             w.restart(clear);
             let k2 = w.new_injector();
+            if rng.coin() {
+                // a batch that reserves whole buckets it never touches, then an item behind that hole
+                let real = rng.range(0, 3);
+                let reported = real + *rng.pick(&[100usize, 5000, 40_000]);
+                w.push_lying(k2, real, reported);
+                gap_behind = reported + 200;
+                rep.count("directed.restart.twice-without-tick.stream-with-a-hole");
+            }
             w.push_via(k2, 40, false);
             if rng.coin() {
                 // the matcher becomes the sole owner of that stream before the next restart
@@ -373,7 +382,8 @@ fn scenario_restart(rng: &mut Rng, id: String, rep: &mut Report, props: &[&str])
     // ticks before anything was injected into the new stream
     let st = w.tick(timeout);
     rep.count(&format!("tick.changed={}.running={}", st.changed, st.running));
-    let n_new = rng.range(1, 400);
+    // (after a stream with a hole: enough items to grow past where the hole ended)
+    let n_new = rng.range(1, 400) + gap_behind;
     w.push_via(k2, n_new, rng.coin());
     for _ in 0..rng.range(1, 4) {
         let st = w.tick(timeout);
